@@ -24,7 +24,8 @@ def vsub (a b : List Float) : List Float := List.zipWith (· - ·) a b
     * `halfline rate`          : `-rate·x₀ - ½ Σ_{i≥1} x_i²` for `x₀ > 0`, `-inf` otherwise (boundary; C14)
     * `logbox`                 : `Σ ln(x_i) + ln(1 - x_i)` on (0,1)^d, NaN outside (C14)
     * `sqrtgamma rate`         : `Σ ln(√x_i) - rate·x_i` on x > 0, value and gradient NaN outside (C04/C14: the halving loop of
-                                 `find_reasonable_epsilon`) -/
+                                 `find_reasonable_epsilon`)
+    * `cliff r2 drop`          : `-½|x|²`, lowered by `drop` where `|x|² > r2` (energy errors at the divergence bound; C03) -/
 def parseTarget (ty : String) (ws : List String) : Option TargetF :=
   let nums (l : List String) : Option (List Float) :=
     if ty = "f32" then (parseF32s l).map fun v => v.map Float32.toFloat else parseF64s l
@@ -70,6 +71,13 @@ def parseTarget (ty : String) (ws : List String) : Option TargetF :=
       some ⟨fun x => (x.map fun t => Float.log (Float.sqrt t) - rate * t).foldl (· + ·) 0,
             -- autodiff through `ln ∘ sqrt`: `(1/√t)·(1/(2√t))`, NaN for `t < 0`
             fun x => x.map fun t => (if t < 0 then nan else 1 / Float.sqrt t / (2 * Float.sqrt t)) - rate⟩
+    | _ => none
+  | ["cliff", r2, drop] =>
+    match nums [r2, drop] with
+    | some [r2, drop] =>
+      some ⟨fun x => let q := (x.map fun t => t * t).foldl (· + ·) 0
+                     if q > r2 then -0.5 * q - drop else -0.5 * q,
+            fun x => x.map fun t => -t⟩
     | _ => none
   | _ => none
 
